@@ -107,7 +107,7 @@ NI static void postmortem(asn_TYPE_descriptor_t *td, void *st) {
 }
 
 /* rt TYPE HEX : the C01/C02 core */
-NI static void cmd_rt(char **a, int na) {
+NI static void cmd_rt(char **a, int na, int light) {
     asn_TYPE_descriptor_t *td = find_type(a[1]);
     if(!td || na < 3) { printf("rt ERR notype\n"); return; }
     unsigned char *in; size_t n = unhex(a[2], &in);
@@ -117,7 +117,11 @@ NI static void cmd_rt(char **a, int na) {
     printf("rt rc=%d consumed=%zu/%zu", rv.code, rv.consumed, n);
     if(rv.code != RC_OK) { ASN_STRUCT_FREE(*td, s0); ledger_on = 0; exact_free(in, n); printf(" leak=%d\n", ledger_live()); return; }
     struct enc e[5]; void *s[5] = {0, 0, 0, 0, 0};
+    const char *mask = na > 3 ? a[3] : "";
     for(int i = 0; i < 5; i++) {
+        if((light && i >= 3) || strstr(mask, SYN[i]) == mask || (strstr(mask, SYN[i]) && strstr(mask, SYN[i])[-1] == ',')) {
+            e[i].b = 0; e[i].n = -1; e[i].err = 0; printf(" %s=skip", SYN[i]); continue;
+        }
         e[i] = do_enc(SYNV[i], td, s0);
         printf(" %s=", SYN[i]);
         if(e[i].n < 0) printf("E%d", e[i].err); else puthex(stdout, e[i].b, e[i].n);
@@ -136,12 +140,25 @@ NI static void cmd_rt(char **a, int na) {
         if(!enc_eq(&d, &e[0])) printf(" rder:%s", SYN[i]);
         enc_free(&d);
     }
-    for(int i = 0; i < 5; i++) {
+    for(int i = 0; i < 5 && !light; i++) {
         if(!s[i]) continue;
         for(int j = 0; j < 5; j++) {
             if(e[j].n < 0 || i == j) continue;
             struct enc d = do_enc(SYNV[j], td, s[i]);
-            if(!enc_eq(&d, &e[j])) printf(" trans:%s>%s", SYN[i], SYN[j]);
+            if(!enc_eq(&d, &e[j])) {
+                /* bytes differ: C06 matter for canonical targets; C01 asks whether the *value* changed */
+                printf(" transbytes:%s>%s", SYN[i], SYN[j]);
+                int same_value = 0;
+                if(d.n >= 0) {
+                    void *s2 = 0;
+                    unsigned char *x = exact_dup(d.b, d.n);
+                    asn_dec_rval_t r2 = asn_decode(0, SYNV[j], td, &s2, x, d.n);
+                    exact_free(x, d.n);
+                    if(r2.code == RC_OK) { struct enc d2 = do_enc(ATS_DER, td, s2); same_value = enc_eq(&d2, &e[0]); enc_free(&d2); }
+                    ASN_STRUCT_FREE(*td, s2);
+                }
+                if(!same_value) printf(" trans:%s>%s", SYN[i], SYN[j]);
+            }
             enc_free(&d);
         }
     }
@@ -245,7 +262,8 @@ int main(int ac, char **av) {
         alarm(wd);
         cur_skip_set(0);
         if(na > 1 && !strncmp(a[na - 1], "skip=", 5)) { cur_skip_set(a[na - 1] + 5); na--; }
-        if(!strcmp(a[0], "rt")) cmd_rt(a, na);
+        if(!strcmp(a[0], "rt")) cmd_rt(a, na, 0);
+        else if(!strcmp(a[0], "rtl")) cmd_rt(a, na, 1);
         else if(!strcmp(a[0], "dec")) cmd_dec(a, na);
         else if(!strcmp(a[0], "enc")) cmd_enc(a, na);
         else if(!strcmp(a[0], "cons")) cmd_cons(a, na);
